@@ -29,6 +29,16 @@ CLAIMED = {
         design_ref="DESIGN.md section 6 C02",
         note=_SYNC_NOTE,
         technique="TLA+ property layer (SyncOutcome: Changed/Needed/Exception/Kept) + TLC trace validation of real sync histories"),
+    "C03": dict(
+        text="Every packet sequence up to the bound over a hostile alphabet ('..', '.', '', 'a/../..', absolute, 'a//b', backslash, duplicates, "
+             "unordered, children of files and of symlinks, hard links to unknown / escaping / symlink-crossing names, symlinks to outside carrying "
+             "xattrs, DATA for unrequested ids, early FIN) x four prior destinations containing symlinks that point outside is sent by a scripted "
+             "sender to the real Receive inside a chroot jail; TLC checks on the recorded execution that the identity snapshot of everything outside "
+             "dest is unchanged, that a stream which ValidStream (or the hard-link / unrequested-data rule) rejects makes Receive fail, and that no "
+             "entry at or after the first offending element was applied.",
+        design_ref="DESIGN.md section 6 C03",
+        note=_SYNC_NOTE + " Kernel symlink-following behaviour per syscall is trusted; the jail is a chroot of the same filesystem.",
+        technique="TLA+ property layer (ValidStream + containment clauses in SyncTrace) + TLC trace validation of real Receive against a hostile scripted sender in a chroot jail"),
     "C04": dict(
         text="Fault enumeration on the real code judged by TLC: a fault-free run of each scenario (5-file tree into empty and dirty destinations, "
              "300-file fan-out with a slow DATA path so that >132 requests stay outstanding) counts the operations of every kind; then every "
